@@ -169,6 +169,21 @@ Definition check_final_box (cs : boxcase) : bool :=
   | None => false
   end.
 
+(* the same box computed from the INITIAL fit's result: (key, segment_minimum_count, temperatures, usage,
+   final_bounds_scalar, reduced vector of the initial fit, rows kept by the hook for the final fit) — no row is taken
+   over from the recording *)
+Definition initcase := (model_key * nat * list float * list float * float * list float * list frow)%type.
+Definition check_final_from_initial (cs : initcase) : bool :=
+  let '(key, nmin, T, obs, scalar, x0, rec) := cs in
+  match final_box_from_initial F key nmin T obs scalar x0 with
+  | Some b =>
+      match key, b, rec with
+      | KC, _ :: rest, r0 :: _ => if pinned_row T r0 then rows_close (r0 :: rest) rec else rows_close b rec
+      | _, _, _ => rows_close b rec
+      end
+  | None => false
+  end.
+
 (* (temperatures, usage, rows kept by the hook for the initial hdd_tidd_cdd_smooth fit) *)
 Definition check_initial_box (cs : list float * list float * list frow) : bool :=
   let '(T, obs, rec) := cs in
@@ -208,7 +223,8 @@ Inductive anycase :=
 | AFinalBox (c : boxcase)
 | AInitialBox (c : list float * list float * list frow)
 | AGenInBox (c : building F * boxcase * bool)
-| AGap (c : gapcase).
+| AGap (c : gapcase)
+| AFinalFromInitial (c : initcase).
 
 Definition check_any (a : anycase) : bool :=
   match a with
@@ -217,4 +233,5 @@ Definition check_any (a : anycase) : bool :=
   | AInitialBox c => check_initial_box c
   | AGenInBox c => check_gen_in_box c
   | AGap c => check_gap c
+  | AFinalFromInitial c => check_final_from_initial c
   end.
